@@ -78,6 +78,14 @@ type Case struct {
 	Fleet  int   `json:"fleet,omitempty"`
 	Pos    int   `json:"pos,omitempty"`
 	Probes []int `json:"probes,omitempty"`
+	// Imports is the guest's import section in order: "f" (the function under test), "p<j>" for
+	// each probed pad function, and non-function imports taken from the helper module "aux":
+	// "gi" (immutable i32 global), "gI" (mutable i64 global), "gF" (immutable f64 global),
+	// "m" (memory), "t" (funcref table). Empty means "f" followed by the probes.
+	Imports []string `json:"imports,omitempty"`
+	// Type0 >= 1 puts padSigs[Type0-1] first in the guest's type section, so that type index 0
+	// is not the type of the function under test.
+	Type0 int `json:"type0,omitempty"`
 }
 
 var styles = []string{"reflect", "reflect-ctx", "reflect-mod", "gofunc", "gomodfunc"}
@@ -200,21 +208,82 @@ func pushConst(b *wasmenc.B, t byte, c uint64) {
 	}
 }
 
+var auxKinds = []string{"gi", "gI", "gF", "m", "t"}
+
+// importOrder returns the guest's import section order (default: f, then the probes).
+func importOrder(c Case) []string {
+	if len(c.Imports) > 0 {
+		return c.Imports
+	}
+	o := []string{"f"}
+	for _, j := range c.Probes {
+		o = append(o, fmt.Sprintf("p%d", j))
+	}
+	return o
+}
+
+func needsAux(c Case) bool {
+	for _, x := range importOrder(c) {
+		if x != "f" && x[0] != 'p' {
+			return true
+		}
+	}
+	return false
+}
+
+// auxModule exports the globals, memory and table a guest may import.
+func auxModule() []byte {
+	m := &wasmenc.Module{
+		Mems:   [][]byte{wasmenc.Limits(1, 2, false)},
+		Tables: [][]byte{wasmenc.TableType(wasmenc.FuncRef, 2, 4)},
+		Globals: []wasmenc.Global{
+			{Type: wasmenc.I32, Init: wasmenc.NewB().I32Const(7).Bytes()},
+			{Type: wasmenc.I64, Mut: true, Init: wasmenc.NewB().I64Const(-9).Bytes()},
+			{Type: wasmenc.F64, Init: wasmenc.NewB().F64(1.5).Bytes()},
+		},
+	}
+	m.Exports = []wasmenc.Export{{Name: "gi", Kind: wasmenc.KGlobal, Idx: 0}, {Name: "gI", Kind: wasmenc.KGlobal, Idx: 1}, {Name: "gF", Kind: wasmenc.KGlobal, Idx: 2},
+		{Name: "m", Kind: wasmenc.KMem, Idx: 0}, {Name: "t", Kind: wasmenc.KTable, Idx: 0}}
+	return m.Encode()
+}
+
 func buildGuest(c Case) []byte {
 	m := &wasmenc.Module{}
 	P, R := vts(c.P), vts(c.R)
 	np, nr := uint32(len(P)), uint32(len(R))
-	host := m.ImportFunc("host", "f", P, R)
+	if c.Type0 >= 1 && c.Type0 <= len(padSigs) {
+		m.AddType(vts(padSigs[c.Type0-1][0]), vts(padSigs[c.Type0-1][1]))
+	}
+	var host uint32
+	padIdx := map[int]uint32{}
+	ownTable := uint32(0)              // index of the guest's own table (after imported tables)
+	for _, x := range importOrder(c) { // all imports before the first AddFunc
+		switch x {
+		case "f":
+			host = m.ImportFunc("host", "f", P, R)
+		case "gi":
+			m.Imports = append(m.Imports, wasmenc.Import{Mod: "aux", Name: "gi", Kind: wasmenc.KGlobal, Desc: wasmenc.GlobalType(wasmenc.I32, false)})
+		case "gI":
+			m.Imports = append(m.Imports, wasmenc.Import{Mod: "aux", Name: "gI", Kind: wasmenc.KGlobal, Desc: wasmenc.GlobalType(wasmenc.I64, true)})
+		case "gF":
+			m.Imports = append(m.Imports, wasmenc.Import{Mod: "aux", Name: "gF", Kind: wasmenc.KGlobal, Desc: wasmenc.GlobalType(wasmenc.F64, false)})
+		case "m":
+			m.Imports = append(m.Imports, wasmenc.Import{Mod: "aux", Name: "m", Kind: wasmenc.KMem, Desc: wasmenc.Limits(1, 2, false)})
+		case "t":
+			m.Imports = append(m.Imports, wasmenc.Import{Mod: "aux", Name: "t", Kind: wasmenc.KTable, Desc: wasmenc.TableType(wasmenc.FuncRef, 2, 4)})
+			ownTable++
+		default:
+			var j int
+			fmt.Sscanf(x, "p%d", &j)
+			pp, pr := padSig(j)
+			padIdx[j] = m.ImportFunc("host", x, vts(pp), vts(pr))
+		}
+	}
 	params := func(b *wasmenc.B) *wasmenc.B {
 		for i := uint32(0); i < np; i++ {
 			b.LocalGet(i)
 		}
 		return b
-	}
-	padIdx := map[int]uint32{}
-	for _, j := range c.Probes { // all imports before the first AddFunc
-		pp, pr := padSig(j)
-		padIdx[j] = m.ImportFunc("host", fmt.Sprintf("p%d", j), vts(pp), vts(pr))
 	}
 	for _, j := range c.Probes {
 		pp, pr := padSig(j)
@@ -231,8 +300,12 @@ func buildGuest(c Case) []byte {
 	// that host functions need an importing module and must not be called directly; on the
 	// compiler ExportedFunction of such a re-export panics with an index error.)
 	m.Tables = [][]byte{wasmenc.TableType(wasmenc.FuncRef, 1, 1)}
-	m.Elems = [][]byte{wasmenc.ActiveElemFuncs(0, []uint32{host})}
-	m.ExportFunc("echo_ind", m.AddFunc(P, R, nil, params(wasmenc.NewB()).I32Const(0).CallIndirect(m.AddType(P, R), 0).Bytes()))
+	if ownTable == 0 {
+		m.Elems = [][]byte{wasmenc.ActiveElemFuncs(0, []uint32{host})}
+	} else {
+		m.Elems = [][]byte{wasmenc.ActiveElemFuncsTable(ownTable, wasmenc.NewB().I32Const(0).Bytes(), []uint32{host})}
+	}
+	m.ExportFunc("echo_ind", m.AddFunc(P, R, nil, params(wasmenc.NewB()).I32Const(0).CallIndirect(m.AddType(P, R), ownTable).Bytes()))
 	m.ExportFunc("echo_tail", m.AddFunc(P, R, nil, params(wasmenc.NewB()).ReturnCall(host).Bytes()))
 	for vi, v := range c.Vecs {
 		// kcall_v: () -> i64, locals = results
@@ -626,6 +699,31 @@ func valid(c Case) bool {
 	if c.Fleet < 0 || c.Fleet > 4096 || c.Pos < 0 || (c.Fleet > 1 && c.Pos >= c.Fleet) || (c.Fleet <= 1 && (c.Pos != 0 || len(c.Probes) > 0)) || len(c.Probes) > 32 {
 		return false
 	}
+	if c.Type0 < 0 || c.Type0 > len(padSigs) {
+		return false
+	}
+	if len(c.Imports) > 0 {
+		want := map[string]int{"f": 1}
+		for _, j := range c.Probes {
+			want[fmt.Sprintf("p%d", j)] = 1
+		}
+		for _, k := range auxKinds {
+			want[k] = -1 // optional, at most once
+		}
+		for _, x := range c.Imports {
+			switch want[x] {
+			case 1, -1:
+				want[x] = 0
+			default:
+				return false
+			}
+		}
+		for _, v := range want {
+			if v == 1 {
+				return false
+			}
+		}
+	}
 	seen := map[int]bool{}
 	for _, j := range c.Probes {
 		if j < 0 || j >= c.Fleet || j == c.Pos || seen[j] {
@@ -694,6 +792,11 @@ func runCase(c Case) (f *failure, st runStats) {
 	}
 	if _, err := hb.Instantiate(lctx); err != nil {
 		return failf("%s: the builder rejected the host module: %v", describe(c), err), st
+	}
+	if needsAux(c) {
+		if _, err := rt.InstantiateWithConfig(lctx, auxModule(), wazero.NewModuleConfig().WithName("aux")); err != nil {
+			return failf("%s: harness: helper module aux rejected: %v", describe(c), err), st
+		}
 	}
 	gcm, err := rt.CompileModule(lctx, buildGuest(c))
 	var guest api.Module
@@ -943,6 +1046,12 @@ func describe(c Case) string {
 	}
 	if c.Fleet > 1 {
 		g += fmt.Sprintf(" host-module-functions=%d position=%d", c.Fleet, c.Pos)
+	}
+	if len(c.Imports) > 0 {
+		g += fmt.Sprintf(" guest-imports=%v", c.Imports)
+	}
+	if c.Type0 > 0 {
+		g += fmt.Sprintf(" guest-type0=%q->%q", padSigs[c.Type0-1][0], padSigs[c.Type0-1][1])
 	}
 	return fmt.Sprintf("{engine=%s style=%s params=%q results=%q%s}", c.Engine, c.Style, c.P, c.R, g)
 }
@@ -1485,6 +1594,32 @@ func genCase(t *rapid.T) Case {
 		if len(c.Vecs) > 2 {
 			c.Vecs = c.Vecs[:2]
 		}
+	} else if rapid.IntRange(0, 2).Draw(t, "few-host-functions") != 0 {
+		// a few host functions of different signatures in the same host module, some imported by the guest
+		c.Fleet = rapid.IntRange(2, 5).Draw(t, "nfuncs")
+		c.Pos = rapid.IntRange(0, c.Fleet-1).Draw(t, "pos")
+		for j := 0; j < c.Fleet; j++ {
+			if j != c.Pos && rapid.IntRange(0, 2).Draw(t, "import-pad") != 0 {
+				c.Probes = append(c.Probes, j)
+			}
+		}
+	}
+	// the guest's import section: function imports in a drawn order, interleaved with
+	// imported globals / memory / table at drawn positions; and a drawn first type
+	if rapid.IntRange(0, 4).Draw(t, "default-imports") != 0 {
+		order := []string{"f"}
+		for _, j := range c.Probes {
+			order = append(order, fmt.Sprintf("p%d", j))
+		}
+		order = rapid.Permutation(order).Draw(t, "func-import-order")
+		for _, k := range auxKinds {
+			if rapid.IntRange(0, 2).Draw(t, "import-"+k) == 0 {
+				at := rapid.IntRange(0, len(order)).Draw(t, "at")
+				order = append(order[:at], append([]string{k}, order[at:]...)...)
+			}
+		}
+		c.Imports = order
+		c.Type0 = rapid.IntRange(0, len(padSigs)).Draw(t, "type0")
 	}
 	return c
 }
@@ -1536,7 +1671,31 @@ func labelsOf(c Case, st runStats) (bool, []string) {
 			l = append(l, "listener-and-more-results-than-params")
 		}
 	}
-	if c.Fleet > 1 {
+	if len(c.Imports) > 0 {
+		nonFuncBefore, seenNonFunc := false, 0
+		for _, x := range c.Imports {
+			if x == "f" || x[0] == 'p' {
+				if seenNonFunc > 0 {
+					nonFuncBefore = true
+				}
+			} else {
+				seenNonFunc++
+			}
+		}
+		if seenNonFunc > 0 {
+			l = append(l, "guest-imports-globals/memory/table")
+		}
+		if nonFuncBefore {
+			l = append(l, "non-function-import-before-a-function-import")
+		}
+		if c.Type0 > 0 {
+			l = append(l, "guest-type-0-drawn")
+		}
+	}
+	if c.Fleet > 1 && c.Fleet < 300 {
+		l = append(l, "host-module-with-2-5-functions")
+	}
+	if c.Fleet >= 300 {
 		l = append(l, "host-module-with-300-700-functions")
 		if c.Pos >= 256 {
 			l = append(l, "function-under-test-at-position>=256")
